@@ -54,7 +54,8 @@ def exc_class(name):
     return {'VErrA': VErrA, 'VErrB': VErrB, 'VErrC': VErrC, 'VBase': VBase, 'VFalsy': VFalsy, 'VCustomInit': VCustomInit, 'Exception': Exception,
             'ValueError': ValueError, 'LookupError': LookupError, 'KeyError': KeyError,
             'IndexError': IndexError, 'OSError': OSError, 'FileNotFoundError': FileNotFoundError,
-            'NotImplementedError': NotImplementedError, 'StopIteration': StopIteration}[name]
+            'NotImplementedError': NotImplementedError, 'StopIteration': StopIteration,
+            'TypeError': TypeError}[name]
 
 
 # ---------------------------------------------------------------------------------------------------------------------
